@@ -440,7 +440,8 @@ func equalStrs(a, b []string) bool {
 		return false
 	}
 	for i := range a {
-		if a[i] != b[i] {
+		// the native side reports through JSON, which replaces invalid UTF-8 by U+FFFD
+		if strings.ToValidUTF8(a[i], "\uFFFD") != strings.ToValidUTF8(b[i], "\uFFFD") {
 			return false
 		}
 	}
